@@ -10,7 +10,9 @@
     number {val, unit?}     val: number token or "INF" | "-INF" | "NaN"
     ref {val, dis?}   symbol {val}   uri {val}   date {val}   time {val}   dateTime {val, tz?}
     coord {lat, lng}   xstr {type, val}
-    grid {meta?, cols:[{name, meta?}], rows:[{…}]}   (meta.ver is the grid version, not a tag)
+    grid {meta?, cols:[{name, meta?}], rows:[{…}]}   (meta.ver is the grid version, not a tag; grid meta,
+                                                      column meta and rows are dict objects: a `_kind` member
+                                                      in them is the optional dict tag, not a tag of the dict)
   Dates, times and timestamps stay lexical (chrono evaluates the texts), as in Hs.Model.Hayson.
 -/
 import Hs.Model.Hayson
@@ -109,7 +111,8 @@ def read : Nat → Json → Option Val
           | some (.obj mm) =>
             let ml := mm.toList
             let ver := (strOf (lookup ml "ver")).getD (s "3.0")
-            (readTags fuel (ml.filter (·.1 != s "ver"))).map fun kvs => (kvs, ver)
+            -- the meta is a dict object: its optional `"_kind":"dict"` member is not a tag (as in rows)
+            (readTags fuel (ml.filter (fun p => p.1 != s "ver" && p.1 != s "_kind"))).map fun kvs => (kvs, ver)
           | some _ => none
         match metaR, lookup l "cols", lookup l "rows" with
         | some (mkvs, ver), some (.arr cs), some (.arr rs) =>
@@ -148,7 +151,7 @@ def readCols : Nat → List Json → Option (List (List Char × OTags))
         match lookup cl "meta" with
         | none => some ((name, .none) :: rest)
         | some (.obj mm) =>
-          (readTags fuel mm.toList).map fun kvs =>
+          (readTags fuel (mm.toList.filter (·.1 != s "_kind"))).map fun kvs =>
             (name, if kvs.isEmpty then OTags.none else OTags.some (dictOf kvs)) :: rest
         | some _ => none
       | _, _ => none
